@@ -183,5 +183,81 @@ func runControls(pd *PropDef) (out []Ob) {
 		paths, complete := pathFacts(f.Blocks[0], ret, nil, 100)
 		add("path enumeration over two diamonds", complete && len(paths) == 4, fmt.Sprintf("expected 4 paths, got %d", len(paths)))
 	}
+	// feasible paths with a flag
+	{
+		f := fn("Flagged")
+		var ret1 *ssa.BasicBlock
+		var brk *ssa.BasicBlock
+		allInstrs(f, func(in ssa.Instruction) {
+			if r, ok := in.(*ssa.Return); ok {
+				if k, isK := constInt(r.Results[0]); isK && k == 1 {
+					ret1 = r.Block()
+				}
+			}
+		})
+		for _, l := range loopsOf(f) {
+			for _, e := range l.exitEdges() {
+				if e[0] != l.Header {
+					brk = e[0]
+				}
+			}
+		}
+		viaBreak := 0
+		if ret1 != nil && brk != nil {
+			paths, _ := feasiblePaths(f.Blocks[0], func(b *ssa.BasicBlock) bool { return b == ret1 }, 100)
+			for _, pa := range paths {
+				for _, b := range pa {
+					if b == brk {
+						viaBreak++
+					}
+				}
+			}
+			add("feasible paths: the flag set on the break edge prunes the `all` branch", len(paths) > 0 && viaBreak == 0, fmt.Sprintf("%d paths reach `return 1`, %d of them through the break", len(paths), viaBreak))
+		} else {
+			add("feasible paths: fixture shape", false, "return 1 / break edge not found")
+		}
+	}
+	// virtual calls
+	{
+		inlSave := inlining
+		inlining = true
+		f := fn("TwoSites")
+		var args []string
+		p.virtualCalls(f, []*ssa.Function{fn("Copy")}, func(call ssa.CallInstruction) {
+			args = append(args, expr(strip(call.Common().Args[1])))
+		})
+		inlining = inlSave
+		add("virtual calls: a helper with two call sites yields two calls with their own arguments", len(args) == 2 && args[0] != args[1], fmt.Sprint(args))
+	}
+	// linear forms
+	{
+		ringT := p.Named("rcproxy/fx", "Ring")
+		var sizeF *types.Var
+		if st, ok := ringT.Underlying().(*types.Struct); ok {
+			for i := 0; i < st.NumFields(); i++ {
+				if st.Field(i).Name() == "size" {
+					sizeF = st.Field(i)
+				}
+			}
+		}
+		slack := func(name string) (bool, bool) {
+			f := p.byName["(*rcproxy/fx.Ring)."+name]
+			g := p.byName["(*rcproxy/fx.Ring).grow"]
+			rc := &ringCtx{p: p, recv: f.Params[0], sizeF: sizeF, buffered: p.byName["(*rcproxy/fx.Ring).Buffered"], available: p.byName["(*rcproxy/fx.Ring).Available"]}
+			found, ok := false, false
+			allInstrs(f, func(in ssa.Instruction) {
+				if call, isC := in.(*ssa.Call); isC && call.Call.StaticCallee() == g {
+					found = true
+					arg := rc.lin(call.Call.Args[1], 0)
+					want := linForm{coef: map[string]int64{"B": 1, "len(" + expr(f.Params[1]) + ")": 1}, ok: true}
+					ok = arg.minus(want).nonNeg()
+				}
+			})
+			return found, ok
+		}
+		f1, ok1 := slack("WriteOK")
+		f2, ok2 := slack("WriteShort")
+		add("linear forms: size + n - Available() covers Buffered() + n, n alone does not", f1 && ok1 && f2 && !ok2, fmt.Sprintf("WriteOK %v/%v WriteShort %v/%v", f1, ok1, f2, ok2))
+	}
 	return out
 }
